@@ -141,42 +141,15 @@ impl TypedProgram {
             errs.sort();
             return Err(errs);
         }
-        let mut sorted_const_defs: Vec<_> = self.const_defs.iter().collect();
-        // Sort by the meta information of the const defs so we iterate them in the order that
-        // they occur in the source code
-        sorted_const_defs.sort_by_key(|(_name, const_def)| const_def.meta);
-        for &(const_name, const_def) in sorted_const_defs.iter() {
-            if let Type::Unsigned(UnsignedNumType::Usize) = const_def.ty {
-                if let ConstExpr(ConstExprEnum::ExternalValue { party, identifier }, _) =
-                    &const_def.value
-                {
-                    let identifier = format!("{party}::{identifier}");
-                    const_sizes.insert(const_name.clone(), *const_sizes.get(&identifier).unwrap());
-                }
-                let n = resolve_const_expr_unsigned(&const_def.value, &consts_unsigned);
-                const_sizes.insert(const_name.clone(), n as usize);
-                consts_unsigned.insert(const_name.clone(), n);
-            }
-        }
-
+        // The provided constants must have the declared types (checked before any of them is
+        // used to evaluate a const expression):
         let mut errs = vec![];
         for (party, deps) in self.const_deps.iter() {
             for (c, (ty, _)) in deps {
-                let Some(party_deps) = consts.get(party) else {
+                let Some(literal) = consts.get(party).and_then(|deps| deps.get(c)) else {
                     continue;
                 };
-                let Some(literal) = party_deps.get(c) else {
-                    continue;
-                };
-                let identifier = format!("{party}::{c}");
-                if literal.is_of_type(self, ty) {
-                    let bits = literal
-                        .as_bits(self, &const_sizes)
-                        .iter()
-                        .map(|b| *b as usize)
-                        .collect();
-                    env.let_in_current_scope(identifier.clone(), bits);
-                } else {
+                if !literal.is_of_type(self, ty) {
                     errs.push(CompilerError::InvalidLiteralType(
                         literal.clone(),
                         ty.clone(),
@@ -187,6 +160,52 @@ impl TypedProgram {
         if !errs.is_empty() {
             errs.sort();
             return Err(errs);
+        }
+        let mut sorted_const_defs: Vec<_> = self.const_defs.iter().collect();
+        // Sort by the meta information of the const defs so we iterate them in the order that
+        // they occur in the source code
+        sorted_const_defs.sort_by_key(|(_name, const_def)| const_def.meta);
+        // Each numeric const is evaluated exactly once, in wrapping arithmetic of its own type,
+        // so that const exprs can refer to all (not just usize) consts that were defined earlier:
+        let mut const_values: HashMap<String, i128> = HashMap::new();
+        for (identifier, n) in consts_unsigned.iter() {
+            const_values.insert(identifier.clone(), *n as i128);
+        }
+        for (identifier, n) in consts_signed.iter() {
+            const_values.insert(identifier.clone(), *n as i128);
+        }
+        for &(const_name, const_def) in sorted_const_defs.iter() {
+            let is_signed = match const_def.ty {
+                Type::Unsigned(_) => false,
+                Type::Signed(_) => true,
+                _ => continue,
+            };
+            let bits = const_def.ty.size_in_bits_for_defs(self, &const_sizes);
+            let n = eval_const_expr(&const_def.value, &const_values, bits, is_signed);
+            const_values.insert(const_name.clone(), n);
+            if is_signed {
+                consts_signed.insert(const_name.clone(), n as i64);
+            } else {
+                consts_unsigned.insert(const_name.clone(), n as u64);
+            }
+            if let Type::Unsigned(UnsignedNumType::Usize) = const_def.ty {
+                const_sizes.insert(const_name.clone(), n as usize);
+            }
+        }
+
+        for (party, deps) in self.const_deps.iter() {
+            for (c, _) in deps {
+                let Some(literal) = consts.get(party).and_then(|deps| deps.get(c)) else {
+                    continue;
+                };
+                let identifier = format!("{party}::{c}");
+                let bits = literal
+                    .as_bits(self, &const_sizes)
+                    .iter()
+                    .map(|b| *b as usize)
+                    .collect();
+                env.let_in_current_scope(identifier.clone(), bits);
+            }
         }
         let mut input_gates = vec![];
         let mut wire = 2;
@@ -276,8 +295,7 @@ impl TypedProgram {
                 | ConstExprEnum::Add(_, _)
                 | ConstExprEnum::Sub(_, _) => {
                     if let Type::Unsigned(_) = const_def.ty {
-                        let result =
-                            resolve_const_expr_unsigned(&const_def.value, &consts_unsigned);
+                        let result = *consts_unsigned.get(const_name).unwrap();
                         let mut bits = Vec::with_capacity(
                             const_def
                                 .ty
@@ -293,7 +311,7 @@ impl TypedProgram {
                         let bits = bits.into_iter().map(|b| b as usize).collect();
                         env.let_in_current_scope(const_name.clone(), bits);
                     } else {
-                        let result = resolve_const_expr_signed(&const_def.value, &consts_signed);
+                        let result = *consts_signed.get(const_name).unwrap();
                         let mut bits = Vec::with_capacity(
                             const_def
                                 .ty
@@ -314,6 +332,43 @@ impl TypedProgram {
         }
         let output_gates = compile_block(&fn_def.body, self, &mut env, &mut circuit);
         Ok((circuit.build(output_gates), fn_def, const_sizes))
+    }
+}
+
+/// Evaluates the const expr of a const definition of an integer type with the given width, using
+/// wrapping arithmetic of that type (`values` holds the provided and the previously defined consts).
+fn eval_const_expr(
+    ConstExpr(expr, _): &ConstExpr,
+    values: &HashMap<String, i128>,
+    bits: usize,
+    is_signed: bool,
+) -> i128 {
+    let wrap = |n: i128| {
+        let modulus = 1i128 << bits;
+        let n = n.rem_euclid(modulus);
+        if is_signed && n >= modulus / 2 {
+            n - modulus
+        } else {
+            n
+        }
+    };
+    let eval = |expr: &ConstExpr| eval_const_expr(expr, values, bits, is_signed);
+    match expr {
+        ConstExprEnum::NumUnsigned(n, _) => *n as i128,
+        ConstExprEnum::NumSigned(n, _) => *n as i128,
+        ConstExprEnum::ExternalValue { party, identifier } => *values
+            .get(&format!("{party}::{identifier}"))
+            .expect("Existence and type of the provided constant checked before"),
+        ConstExprEnum::ConstExprIdent(ident) => *values
+            .get(ident)
+            .expect("Identifier existence checked during type cheking"),
+        ConstExprEnum::Max(args) => args.iter().map(eval).max().unwrap_or(0),
+        ConstExprEnum::Min(args) => args.iter().map(eval).min().unwrap_or(0),
+        ConstExprEnum::Add(lhs, rhs) => wrap(eval(lhs) + eval(rhs)),
+        ConstExprEnum::Sub(lhs, rhs) => wrap(eval(lhs) - eval(rhs)),
+        ConstExprEnum::True | ConstExprEnum::False => {
+            panic!("Not a numeric const expr: {expr:?}")
+        }
     }
 }
 
@@ -364,7 +419,6 @@ macro_rules! make_resolve_const_function {
 
 make_resolve_const_function!(resolve_const_expr_usize, usize);
 make_resolve_const_function!(resolve_const_expr_unsigned, u64);
-make_resolve_const_function!(resolve_const_expr_signed, i64);
 
 fn compile_block(
     stmts: &[TypedStmt],
